@@ -4,6 +4,7 @@ import (
 	"encoding/json"
 	"fmt"
 	"os"
+	"strings"
 
 	"verif/harness/core"
 	"verif/simdisk"
@@ -85,7 +86,11 @@ func replayMain(path string) int {
 		if fp.At >= 0 {
 			p = &fp
 		}
-		r := core.RunFault(f.Cfg, f.Ops, faultCont, p)
+		cont := faultCont
+		if strings.HasPrefix(f.Msg, "[continuation without retry]") {
+			cont = faultContNoRetry
+		}
+		r := core.RunFault(f.Cfg, f.Ops, cont, p)
 		fmt.Println("  failing step:", r.HitOp, "outcome:", r.Outcome)
 		return show(r.Viol)
 	case "cluster":
